@@ -13,6 +13,7 @@ type Lexer struct {
 	readPosition int  // current reading position in input (after current char)
 	ch           byte // current char under examination
 	inside       bool
+	inComment    bool // between <%# and %>: quotes and # have no lexical meaning
 	curLine      int
 }
 
@@ -118,6 +119,7 @@ func (l *Lexer) nextInsideToken() token.Token {
 	case '%':
 		if l.peekChar() == '>' {
 			l.inside = false
+			l.inComment = false
 			l.readChar()
 			tok = token.Token{Type: token.E_END, Literal: "%>", LineNumber: line}
 			break
@@ -130,6 +132,7 @@ func (l *Lexer) nextInsideToken() token.Token {
 			switch l.peekChar() {
 			case '#':
 				l.readChar()
+				l.inComment = true
 				tok = token.Token{Type: token.C_START, Literal: "<%#", LineNumber: line}
 			case '=':
 				l.readChar()
@@ -174,12 +177,24 @@ func (l *Lexer) nextInsideToken() token.Token {
 	case ')':
 		tok = l.newToken(token.RPAREN)
 	case '"':
+		if l.inComment {
+			tok = l.newToken(token.ILLEGAL)
+			break
+		}
 		tok.Type = token.STRING
 		tok.Literal = l.readString()
 	case '`':
+		if l.inComment {
+			tok = l.newToken(token.ILLEGAL)
+			break
+		}
 		tok.Type = token.B_STRING
 		tok.Literal = l.readBString()
 	case '#':
+		if l.inComment {
+			tok = l.newToken(token.ILLEGAL)
+			break
+		}
 		for l.ch != 0 {
 			l.readChar()
 			if l.ch == '\n' || l.ch == '\r' {
